@@ -776,13 +776,22 @@ impl rustc_driver::Callbacks for Cb {
                     s.push(',');
                 }
                 first = false;
+                // the source text of the whole item (short items only): string constants such as regex patterns are part of the behaviour
+                let src = tcx
+                    .sess
+                    .source_map()
+                    .span_to_snippet(tcx.source_span(id))
+                    .ok()
+                    .filter(|t| t.len() <= 600)
+                    .unwrap_or_default();
                 let _ = write!(
                     s,
-                    "{{\"path\":{},\"kind\":{},\"ty\":{},\"span\":{}}}",
+                    "{{\"path\":{},\"kind\":{},\"ty\":{},\"span\":{},\"src\":{}}}",
                     esc(&tcx.def_path_str(did)),
                     esc(&format!("{:?}", kind)),
                     cx.ty(tcx.type_of(did).instantiate_identity().skip_norm_wip()),
-                    cx.span(tcx.def_span(did))
+                    cx.span(tcx.def_span(did)),
+                    esc(&src)
                 );
             }
         }
